@@ -564,6 +564,7 @@ func genRace(seed uint64, run int) *Case {
 	cs := &Case{Prop: "C18", World: "race", Seed: seed, Run: run}
 	cs.Cfg.Capacity = []int{1, 64, 1024, 20000}[r.Intn(4)]
 	av := knownAvoid("C18", seed, run)
+	g.av = av
 	cs.Cfg.Avoid = av.list()
 	g.genSchema()
 	if av.enumBesideReaders {
